@@ -39,11 +39,37 @@ type c09Call struct {
 	Nested     []c09Program `json:"nested,omitempty"`
 	NestedKeys []string     `json:"nested_keys,omitempty"`
 	Shape      string       `json:"shape,omitempty"` // "" | ref | array | map
+	// Path: for an option merged into this builder from the builder of a nested
+	// object (merge_into veneer): the fields leading to that object, and the
+	// definitions they refer to
+	Path     []string `json:"path,omitempty"`
+	PathDefs []string `json:"path_defs,omitempty"`
+}
+
+// c09Merge is one merge_into veneer (with, possibly, an initialize veneer
+// writing a constant below the same path from the constructor).
+type c09Merge struct {
+	Dest     string   `json:"dest"`
+	Source   string   `json:"source"`
+	Path     []string `json:"path"`
+	PathDefs []string `json:"path_defs"`
+	// InitField / InitValue: the constructor of Dest sets Path.InitField
+	InitField string          `json:"init_field,omitempty"`
+	InitValue json.RawMessage `json:"init_value,omitempty"`
+}
+
+func (mg c09Merge) optionName(field string) string {
+	name := field + "Via"
+	for _, p := range mg.Path {
+		name += strings.ToUpper(p[:1]) + p[1:]
+	}
+	return name
 }
 
 type c09Case struct {
 	Schema   schemaCase   `json:"schema"`
 	Programs []c09Program `json:"programs"`
+	Merges   []c09Merge   `json:"merges,omitempty"`
 }
 
 type c09Batch struct {
@@ -210,11 +236,15 @@ func c09Wrap(t smodel.T, inner any) any {
 }
 
 // drawC09Veneers copies one constrained option per struct definition and
-// renames the argument of the copy.
-func drawC09Veneers(rt *rapid.T, sc schemaCase) ([]string, map[string]string) {
+// renames the argument of the copy; and merges the builder of a nested object
+// (one or two references away) into the builder of its parent, possibly with a
+// constant written below the same path by the parent's constructor.
+func drawC09Veneers(rt *rapid.T, sc schemaCase) ([]string, map[string]string, []c09Merge) {
 	m := sc.Model
-	copies := map[string]string{}  // "Def.field" -> name of the copy
-	rules := map[string][]string{} // per package
+	copies := map[string]string{}         // "Def.field" -> name of the copy
+	optionRules := map[string][]string{}  // per package
+	builderRules := map[string][]string{} // per package
+	var merges []c09Merge
 	for _, d := range m.Defs {
 		if d.Type.Kind != smodel.KStruct {
 			continue
@@ -226,25 +256,238 @@ func drawC09Veneers(rt *rapid.T, sc schemaCase) ([]string, map[string]string) {
 			if rapid.Bool().Draw(rt, "copyoption") {
 				copies[d.Name+"."+f.Name] = f.Name + "Copy"
 				pkg := sc.pkgOf(d.Name)
-				rules[pkg] = append(rules[pkg], fmt.Sprintf("  - duplicate: {by_name: %s.%s, as: %sCopy}\n  - rename_arguments: {by_name: %s.%sCopy, as: [renamedArg]}\n", d.Name, f.Name, f.Name, d.Name, f.Name))
+				optionRules[pkg] = append(optionRules[pkg], fmt.Sprintf("  - duplicate: {by_name: %s.%s, as: %sCopy}\n  - rename_arguments: {by_name: %s.%sCopy, as: [renamedArg]}\n", d.Name, f.Name, f.Name, d.Name, f.Name))
 				break
 			}
 		}
 	}
+	// merges: Dest.f -> E (depth 1), Dest.f -> E.g -> F (depth 2)
+	for _, d := range m.Defs {
+		if d.Type.Kind != smodel.KStruct {
+			continue
+		}
+		var candidates []c09Merge
+		for _, f := range d.Type.Fields {
+			shape, e, ok := c09Supported(m, f)
+			if !ok || shape != "ref" || e == d.Name {
+				continue
+			}
+			candidates = append(candidates, c09Merge{Dest: d.Name, Source: e, Path: []string{f.Name}, PathDefs: []string{e}})
+			for _, g := range m.Def(e).Type.Fields {
+				shape2, target2, ok2 := c09Supported(m, g)
+				if !ok2 || shape2 != "ref" || target2 == d.Name || target2 == e {
+					continue
+				}
+				candidates = append(candidates, c09Merge{Dest: d.Name, Source: target2, Path: []string{f.Name, g.Name}, PathDefs: []string{e, target2}})
+			}
+		}
+		var usable []c09Merge
+		for _, c := range candidates {
+			// merge_into looks the source builder up in the destination's package
+			if sc.pkgOf(c.Source) == sc.pkgOf(c.Dest) {
+				usable = append(usable, c)
+			}
+		}
+		if len(usable) == 0 || rapid.IntRange(0, 3).Draw(rt, "merge") == 0 {
+			continue
+		}
+		// deeper paths first: they are rarer
+		mg := usable[len(usable)-1]
+		if rapid.Bool().Draw(rt, "mergepick") {
+			mg = rapid.SampledFrom(usable).Draw(rt, "mergewhich")
+		}
+		src := m.Def(mg.Source)
+		// a constructor that writes below the path (an initialize veneer, or the
+		// constants of the source object, which merge_into copies) creates the
+		// objects on the way with their types' defaults; if those are not valid
+		// as they stand (a required bounded field), no program that leaves them
+		// alone can be built: such veneers would make every other program of the
+		// destination "refused" for a reason that is the veneer author's
+		zeroValid := true
+		for _, def := range mg.PathDefs {
+			zeroValid = zeroValid && c09ZeroValid(m, def, map[string]bool{})
+		}
+		sourceHasConst := false
+		for _, sf := range src.Type.Fields {
+			if sf.Type.Const != nil || (m.Resolve(sf.Type).Kind == smodel.KEnum && len(m.Resolve(sf.Type).Members) < 2) {
+				sourceHasConst = true
+			}
+		}
+		if sourceHasConst && !zeroValid {
+			continue
+		}
+		var renames []string
+		for _, sf := range src.Type.Fields {
+			renames = append(renames, fmt.Sprintf("%s: %s", sf.Name, mg.optionName(sf.Name)))
+		}
+		pkg := sc.pkgOf(d.Name)
+		rule := fmt.Sprintf("  - merge_into: {destination: %s, source: %s, under_path: %s, rename_options: {%s}}\n", mg.Dest, mg.Source, strings.Join(mg.Path, "."), strings.Join(renames, ", "))
+		// a constant written by the constructor below the same path
+		if zeroValid && rapid.IntRange(0, 2).Draw(rt, "initialize") != 0 {
+			for _, sf := range src.Type.Fields {
+				k := sf.Type.Kind
+				if sf.Type.Const != nil || sf.Type.Nullable || (k != smodel.KBool && k != smodel.KString && k != smodel.KInt && k != smodel.KFloat) {
+					continue
+				}
+				v := smodel.DrawValue(rt, m, sf.Type)
+				mg.InitField, mg.InitValue = sf.Name, rawOf(v)
+				rule += fmt.Sprintf("  - initialize: {by_object: %s, set: [{property: %s.%s, value: %s}]}\n", mg.Dest, strings.Join(mg.Path, "."), sf.Name, string(mg.InitValue))
+				break
+			}
+		}
+		builderRules[pkg] = append(builderRules[pkg], rule)
+		merges = append(merges, mg)
+	}
 	var files []string
+	pkgSet := map[string]bool{}
+	for pkg := range optionRules {
+		pkgSet[pkg] = true
+	}
+	for pkg := range builderRules {
+		pkgSet[pkg] = true
+	}
 	var pkgs []string
-	for pkg := range rules {
+	for pkg := range pkgSet {
 		pkgs = append(pkgs, pkg)
 	}
 	sort.Strings(pkgs)
 	for _, pkg := range pkgs {
-		files = append(files, fmt.Sprintf("language: all\npackage: %s\noptions:\n%s", pkg, strings.Join(rules[pkg], "")))
+		file := fmt.Sprintf("language: all\npackage: %s\n", pkg)
+		if len(builderRules[pkg]) > 0 {
+			file += "builders:\n" + strings.Join(builderRules[pkg], "")
+		}
+		if len(optionRules[pkg]) > 0 {
+			file += "options:\n" + strings.Join(optionRules[pkg], "")
+		}
+		files = append(files, file)
 	}
-	return files, copies
+	return files, copies, merges
+}
+
+// c09ZeroValid: the object the type's constructor makes is valid as it stands:
+// no required field is bounded, and required references lead to such objects.
+func c09ZeroValid(m *smodel.Model, def string, visiting map[string]bool) bool {
+	if visiting[def] {
+		return true
+	}
+	visiting[def] = true
+	defer delete(visiting, def)
+	d := m.Def(def)
+	if d == nil || d.Type.Kind != smodel.KStruct {
+		return false
+	}
+	for _, f := range d.Type.Fields {
+		if !f.Required || f.Type.Const != nil {
+			continue
+		}
+		rt := m.Resolve(f.Type)
+		switch rt.Kind {
+		case smodel.KBool, smodel.KString, smodel.KInt, smodel.KFloat, smodel.KEnum, smodel.KDateTime:
+			if len(smodel.Violations(rt)) > 0 {
+				return false
+			}
+		case smodel.KStruct:
+			if f.Type.Kind != smodel.KRef || !c09ZeroValid(m, f.Type.Ref, visiting) {
+				return false
+			}
+		default:
+			return false
+		}
+	}
+	return true
+}
+
+// c09MergedCalls: calls of the options merged into the destination builder that
+// give every required field of the source object a valid value.
+func c09MergedCalls(rt *rapid.T, m *smodel.Model, mg c09Merge, calls []c09Call) []c09Call {
+	var out []c09Call
+	for _, c := range calls {
+		c.Option = mg.optionName(c.Field)
+		c.Path, c.PathDefs = mg.Path, mg.PathDefs
+		out = append(out, c)
+	}
+	return out
+}
+
+// c09MergePrograms: programs driving the options a merge_into veneer added.
+func c09MergePrograms(rt *rapid.T, m *smodel.Model, mg c09Merge, base []c09Call) []c09Program {
+	var out []c09Program
+	src := m.Def(mg.Source)
+	var first *smodel.Field
+	for i, f := range m.Def(mg.Dest).Type.Fields {
+		if f.Name == mg.Path[0] {
+			first = &m.Def(mg.Dest).Type.Fields[i]
+		}
+	}
+	if first == nil {
+		return nil
+	}
+	hasRequired := func(def string) bool {
+		for _, f := range m.Def(def).Type.Fields {
+			if f.Required && f.Type.Const == nil {
+				return true
+			}
+		}
+		return false
+	}
+	// prefix: what must come before a merged option so that the object can be
+	// built: the objects on the way (all but the last) need their own required
+	// fields, which only the plain option of the first field can provide
+	prefix := func(force bool) ([]c09Call, bool) {
+		calls := append([]c09Call{}, base...)
+		replaced := false
+		needs := false
+		for _, def := range mg.PathDefs[:len(mg.PathDefs)-1] {
+			needs = needs || hasRequired(def)
+		}
+		if needs || force {
+			if call, ok := c09ValidCall(rt, m, *first, 0); ok {
+				calls = append(calls, call)
+				replaced = true
+			} else if needs {
+				return nil, false
+			}
+		}
+		return append(calls, c09MergedCalls(rt, m, mg, c09Baseline(rt, m, mg.Source, 1))...), replaced
+	}
+	for _, sf := range src.Type.Fields {
+		if _, _, ok := c09Supported(m, sf); !ok {
+			continue
+		}
+		call, ok := c09ValidCall(rt, m, sf, 1)
+		if !ok {
+			continue
+		}
+		merged := c09MergedCalls(rt, m, mg, []c09Call{call})[0]
+		for _, force := range []bool{false, true} {
+			calls, replaced := prefix(force)
+			if calls == nil || (force && !replaced) {
+				continue
+			}
+			kind := "merged-option"
+			if replaced {
+				kind = "merged-option-after-replaced-ancestor"
+			}
+			out = append(out, c09Program{Def: mg.Dest, Calls: append(calls, merged), Kind: kind})
+		}
+		// the ancestor replaced after the merged option: the last write wins
+		if calls, _ := prefix(false); calls != nil {
+			if repl, ok := c09ValidCall(rt, m, *first, 0); ok {
+				out = append(out, c09Program{Def: mg.Dest, Calls: append(append(calls, merged), repl), Kind: "ancestor-replaced-after-merged-option"})
+			}
+		}
+		for bound, bad := range smodel.Violations(m.Resolve(sf.Type)) {
+			if calls, _ := prefix(false); calls != nil {
+				v := c09Call{Field: sf.Name, Option: mg.optionName(sf.Name), Value: rawOf(bad), Path: mg.Path, PathDefs: mg.PathDefs}
+				out = append(out, c09Program{Def: mg.Dest, Calls: append(calls, v), Kind: "violation", Invalid: strings.Join(mg.Path, ".") + "." + sf.Name + "(merged):" + bound})
+			}
+		}
+	}
+	return out
 }
 
 // drawC09Programs draws the programs of one schema.
-func drawC09Programs(rt *rapid.T, m *smodel.Model, copies map[string]string) []c09Program {
+func drawC09Programs(rt *rapid.T, m *smodel.Model, copies map[string]string, merges []c09Merge) []c09Program {
 	var out []c09Program
 	for _, d := range m.Defs {
 		if d.Type.Kind != smodel.KStruct {
@@ -323,6 +566,11 @@ func drawC09Programs(rt *rapid.T, m *smodel.Model, copies map[string]string) []c
 				}
 			}
 		}
+		for _, mg := range merges {
+			if mg.Dest == d.Name {
+				out = append(out, c09MergePrograms(rt, m, mg, base)...)
+			}
+		}
 		// sequences: 2-3 options, possibly the same twice
 		if len(driven) > 0 {
 			n := rapid.IntRange(2, 3).Draw(rt, "seqlen")
@@ -341,31 +589,53 @@ func drawC09Programs(rt *rapid.T, m *smodel.Model, copies map[string]string) []c
 
 // c09Expected computes the document a valid program must build: the object
 // built by an empty program with each call's value written at its field, in
-// order.
-func c09Expected(empty map[string]map[string]any, p c09Program) map[string]any {
+// order. The target of a merged option lies below a path: the objects missing
+// on the way are the ones the types' constructors make (ctor).
+func c09Expected(empty, ctor map[string]map[string]any, p c09Program) map[string]any {
 	obj := deepCopyAny(empty[p.Def]).(map[string]any)
 	for _, c := range p.Calls {
+		target := obj
+		for i, step := range c.Path {
+			next, isObj := target[step].(map[string]any)
+			if !isObj {
+				made, _ := deepCopyAny(ctor[c.PathDefs[i]]).(map[string]any)
+				if made == nil {
+					made = map[string]any{}
+				}
+				next = made
+				target[step] = next
+			}
+			target = next
+		}
 		switch c.Shape {
 		case "":
 			v, _ := smodel.ParseJSON(string(c.Value))
-			obj[c.Field] = v
+			target[c.Field] = v
 		case "ref":
-			obj[c.Field] = c09Expected(empty, c.Nested[0])
+			target[c.Field] = c09Expected(empty, ctor, c.Nested[0])
 		case "array":
 			var list []any
 			for _, n := range c.Nested {
-				list = append(list, c09Expected(empty, n))
+				list = append(list, c09Expected(empty, ctor, n))
 			}
-			obj[c.Field] = list
+			target[c.Field] = list
 		case "map":
 			mm := map[string]any{}
 			for i, n := range c.Nested {
-				mm[c.NestedKeys[i]] = c09Expected(empty, n)
+				mm[c.NestedKeys[i]] = c09Expected(empty, ctor, n)
 			}
-			obj[c.Field] = mm
+			target[c.Field] = mm
 		}
 	}
 	return obj
+}
+
+// c09UsesPaths: some call of the program goes through a path.
+func c09UsesPaths(p c09Program) (defs []string) {
+	for _, c := range p.Calls {
+		defs = append(defs, c.PathDefs...)
+	}
+	return defs
 }
 
 func deepCopyAny(v any) any {
@@ -481,6 +751,7 @@ func c09CheckBatch(run *vlib.Run, cases []c09Case) (map[int][]vlib.Violation, er
 	// object whose required constrained fields are unset; then the constructor
 	// JSON is not observable through the builder: fall back to NewX())
 	emptyGo, emptyPy := map[int]map[string]map[string]any{}, map[int]map[string]map[string]any{}
+	emptyGoFromCtor := map[int]map[string]bool{}
 	var ctorReqs []e2.Request
 	type ctorRef struct {
 		caseIdx int
@@ -496,6 +767,11 @@ func c09CheckBatch(run *vlib.Run, cases []c09Case) (map[int][]vlib.Violation, er
 		}
 		if goResps[k].Encoded != "" {
 			v, _ := smodel.ParseJSON(goResps[k].Encoded)
+			emptyGo[r.caseIdx][r.def], _ = v.(map[string]any)
+		} else if goResps[k].Held != "" {
+			// Build() refuses the object (required constrained fields unset):
+			// the driver reads it out of the builder
+			v, _ := smodel.ParseJSON(goResps[k].Held)
 			emptyGo[r.caseIdx][r.def], _ = v.(map[string]any)
 		} else if key, ok := p.goKey(r.caseIdx, r.def); ok {
 			ctorReqs = append(ctorReqs, e2.Request{ID: len(ctorReqs), Key: key, Op: "default"})
@@ -515,6 +791,91 @@ func c09CheckBatch(run *vlib.Run, cases []c09Case) (map[int][]vlib.Violation, er
 			if r.Encoded != "" {
 				v, _ := smodel.ParseJSON(r.Encoded)
 				emptyGo[ctorRefs[k].caseIdx][ctorRefs[k].def], _ = v.(map[string]any)
+				if emptyGoFromCtor[ctorRefs[k].caseIdx] == nil {
+					emptyGoFromCtor[ctorRefs[k].caseIdx] = map[string]bool{}
+				}
+				emptyGoFromCtor[ctorRefs[k].caseIdx][ctorRefs[k].def] = true
+			}
+		}
+	}
+	// what the types' constructors make, for the definitions merged options go
+	// through (NewX() / X())
+	ctorGo, ctorPy := map[int]map[string]map[string]any{}, map[int]map[string]map[string]any{}
+	{
+		var gReqs []e2.Request
+		var pReqs []e2.PyRequest
+		var gRefs, pRefs []ctorRef
+		for i, c := range cases {
+			if !p.usable[i] {
+				continue
+			}
+			ctorGo[i], ctorPy[i] = map[string]map[string]any{}, map[string]map[string]any{}
+			seen := map[string]bool{}
+			for _, mg := range c.Merges {
+				for _, def := range mg.PathDefs {
+					if seen[def] {
+						continue
+					}
+					seen[def] = true
+					if key, ok := p.goKey(i, def); ok {
+						gReqs = append(gReqs, e2.Request{ID: len(gReqs), Key: key, Op: "default"})
+						gRefs = append(gRefs, ctorRef{i, def})
+					}
+					pReqs = append(pReqs, e2.PyRequest{ID: len(pReqs), Op: "default", Module: p.ids[i] + ".models." + pyModuleName(c.Schema.pkgOf(def)), Encoder: p.ids[i] + ".cog.encoder", Class: def})
+					pRefs = append(pRefs, ctorRef{i, def})
+				}
+			}
+		}
+		if len(gReqs) > 0 {
+			resps, err := p.batch.Exec(gReqs)
+			if err != nil {
+				return nil, err
+			}
+			for k, r := range resps {
+				if r.Encoded != "" {
+					v, _ := smodel.ParseJSON(r.Encoded)
+					ctorGo[gRefs[k].caseIdx][gRefs[k].def], _ = v.(map[string]any)
+				}
+			}
+		}
+		if len(pReqs) > 0 {
+			resps, err := p.py.Exec(pReqs)
+			if err != nil {
+				return nil, err
+			}
+			for k, r := range resps {
+				if r.Encoded != "" {
+					v, _ := smodel.ParseJSON(r.Encoded)
+					ctorPy[pRefs[k].caseIdx][pRefs[k].def], _ = v.(map[string]any)
+				}
+			}
+		}
+	}
+	// the constants an initialize veneer writes are in the object an empty
+	// program builds
+	for i, c := range cases {
+		if !p.usable[i] {
+			continue
+		}
+		for _, mg := range c.Merges {
+			if mg.InitField == "" {
+				continue
+			}
+			want, _ := smodel.ParseJSON(string(mg.InitValue))
+			for lang, empties := range map[string]map[string]map[string]any{"go": emptyGo[i], "python": emptyPy[i]} {
+				obj := empties[mg.Dest]
+				if obj == nil || (lang == "go" && emptyGoFromCtor[i][mg.Dest]) {
+					continue
+				}
+				var at any = obj
+				for _, step := range append(append([]string{}, mg.Path...), mg.InitField) {
+					mm, _ := at.(map[string]any)
+					at = mm[step]
+				}
+				count(run, "initialize_checked:"+lang, 1)
+				if _, same := smodel.JSONEqual(want, at); !same {
+					out[i] = append(out[i], vlib.V(fmt.Sprintf("initialize-not-applied:%s:%s", lang, c.Schema.Format), "%s schema, builder of %s: the constructor was told to set %s.%s = %s, an empty program builds %s", c.Schema.Format, mg.Dest, strings.Join(mg.Path, "."), mg.InitField, mg.InitValue, short200(string(rawOf(obj)))))
+				}
 			}
 		}
 	}
@@ -535,11 +896,11 @@ func c09CheckBatch(run *vlib.Run, cases []c09Case) (map[int][]vlib.Violation, er
 		type outcome struct {
 			lang, encoded, failure, where, noOption, argErr, panicMsg string
 			missing                                                   bool
-			empty                                                     map[string]map[string]any
+			empty, ctor                                               map[string]map[string]any
 		}
 		outcomes := []outcome{
-			{lang: "go", encoded: goResps[k].Encoded, failure: goResps[k].BuildErr, where: "build", noOption: goResps[k].NoSuchOption, argErr: goResps[k].ArgErr, panicMsg: goResps[k].Panic, missing: goResps[k].Missing, empty: emptyGo[i]},
-			{lang: "python", encoded: pyResps[k].Encoded, failure: pyResps[k].Error, where: pyResps[k].RaisedIn, noOption: pyResps[k].NoSuchOption, empty: emptyPy[i]},
+			{lang: "go", encoded: goResps[k].Encoded, failure: goResps[k].BuildErr, where: "build", noOption: goResps[k].NoSuchOption, argErr: goResps[k].ArgErr, panicMsg: goResps[k].Panic, missing: goResps[k].Missing, empty: emptyGo[i], ctor: ctorGo[i]},
+			{lang: "python", encoded: pyResps[k].Encoded, failure: pyResps[k].Error, where: pyResps[k].RaisedIn, noOption: pyResps[k].NoSuchOption, empty: emptyPy[i], ctor: ctorPy[i]},
 		}
 		for _, o := range outcomes {
 			switch {
@@ -582,7 +943,17 @@ func c09CheckBatch(run *vlib.Run, cases []c09Case) (map[int][]vlib.Violation, er
 				count(run, "no_reference_object:"+o.lang, 1)
 				continue
 			}
-			want := c09Expected(o.empty, prog)
+			usable := true
+			for _, def := range c09UsesPaths(prog) {
+				if o.ctor[def] == nil {
+					usable = false
+				}
+			}
+			if !usable {
+				count(run, "no_reference_object:"+o.lang, 1)
+				continue
+			}
+			want := c09Expected(o.empty, o.ctor, prog)
 			got, perr := smodel.ParseJSON(o.encoded)
 			if perr != nil {
 				bad(fmt.Sprintf("built-not-json:%s:%s", o.lang, f), "%s", o.encoded)
@@ -669,6 +1040,7 @@ func TestC09(t *testing.T) {
 	run.Describe(
 		"Batches of K schema models (K=4 quick, 8 thorough) per rapid case, in the three input formats, dense in bounded scalars, references to structs (nested builders), arrays and maps of struct references, arrays / maps of scalars, enums, constants, defaults, nullable scalars; cog generates Go and Python types + builders (no veneers), the Go packages are compiled and the Python modules imported. For every struct definition a family of builder PROGRAMS is drawn and executed through reflective drivers (Go: NewXBuilder().Option(args...).Build(); Python: X().option(args...).build()): the baseline (every required field set to a valid value); one program per option with a valid argument (scalars, lists, maps, nested builders built by their own programs, lists and maps of nested builders); one per numeric / length bound with an argument violating it by one unit; one with a violation inside a nested builder; a sequence of 2-3 options (possibly the same twice, last write wins). Oracle: a valid program builds exactly the object an EMPTY program builds with each call's value written at the option's field (JSON equality with exact numbers, so nothing else may change and constructor constants stay); a program holding a violation is reported (Go: Build() returns an error; Python: the option call or build() raises); a valid program is never refused. Non-trivial: every executed (schema, program, language).",
 		"half of the schemas get a veneer that copies one constrained option per object and renames the copy's argument; the copy must behave like the original (and the original must keep working); otherwise every option corresponds to one field of the object; options of unions, anonymous structs, `any`, nested collections and constants are not driven (counted)",
+		"a third of the models are reference chains (Entry.inner.inner); there, and wherever an object refers to a completable object of its package, a merge_into veneer copies the options of the object one or two references away into the ancestor's builder (renamed), 2/3 of the time with an initialize veneer writing a constant below the same path from the constructor; programs call each merged option on a fresh builder, after an option replacing an ancestor of its target, before one, and with a bound-violating argument. Expected object: the value written at the PATH, objects missing on the way being what the types' constructors make (nil guards); the initialize constant must be in the object an empty program builds. Veneers whose constructor would create an object that is invalid as constructed (required bounded field) are not drawn",
 		"empty lists / maps are not used as arguments (Go omitempty hides them: listed under C01)",
 		"field names avoid keywords of the target languages (C02's hostile-names finding)",
 	)
@@ -683,12 +1055,18 @@ func TestC09(t *testing.T) {
 		var cases []c09Case
 		for i := 0; i < k; i++ {
 			f := rapid.SampledFrom(smodel.Formats).Draw(rt, "format")
-			sc := drawSchemaCase(rt, c09GenConfig(f), 0)
-			var copies map[string]string
-			if rapid.Bool().Draw(rt, "veneers") {
-				sc.Veneers, copies = drawC09Veneers(rt, sc)
+			cfg := c09GenConfig(f)
+			chain := rapid.IntRange(0, 2).Draw(rt, "refchain") == 0
+			if chain {
+				cfg.RefChain, cfg.Dense = true, false
 			}
-			cases = append(cases, c09Case{Schema: sc, Programs: drawC09Programs(rt, sc.Model, copies)})
+			sc := drawSchemaCase(rt, cfg, 0)
+			var copies map[string]string
+			var merges []c09Merge
+			if chain || rapid.Bool().Draw(rt, "veneers") {
+				sc.Veneers, copies, merges = drawC09Veneers(rt, sc)
+			}
+			cases = append(cases, c09Case{Schema: sc, Programs: drawC09Programs(rt, sc.Model, copies, merges), Merges: merges})
 		}
 		res, err := c09CheckBatch(run, cases)
 		if err != nil {
